@@ -804,7 +804,7 @@ func coqCase(id int, in input, obs []stepObs, final []*batchObs) string {
 		fin = append(fin, coqBatch(b))
 	}
 	c := in.Cfg
-	return fmt.Sprintf("{| wid := %s; wcfg := {| cm_name := %s; tcp_name := %s; publish := %s; slice_api := %s; has_a2 := %s; has_b1 := %s; has_v1 := %s; has_tcp := %s |};\n   wsteps := %s;\n   wobs_l := %s;\n   wfinal := %s |}",
+	return fmt.Sprintf("WC {| wid := %s; wcfg := {| cm_name := %s; tcp_name := %s; publish := %s; slice_api := %s; has_a2 := %s; has_b1 := %s; has_v1 := %s; has_tcp := %s |};\n   wsteps := %s;\n   wobs_l := %s;\n   wfinal := %s |}",
 		hx.N(id), hx.Str(c.CM), hx.Str(c.TCP), hx.Str(c.Publish), hx.Bool(c.Slice), hx.Bool(c.A2), hx.Bool(c.B1), hx.Bool(c.V1), hx.Bool(c.TCPR),
 		hx.List(steps), hx.List(os), hx.List(fin))
 }
@@ -1016,23 +1016,52 @@ func main() {
 		r := concurrent(o.Seed, 8, 4000)
 		b, _ := json.Marshal(r)
 		fmt.Println(string(b))
-		if r.Failure != "" || r.Mutated != "" {
+		lr := legConcurrent(o.Seed, 8, 4000)
+		b, _ = json.Marshal(lr)
+		fmt.Println(string(b))
+		if r.Failure != "" || r.Mutated != "" || lr.Failure != "" {
 			os.Exit(3)
 		}
 		return
 	}
 	rng := o.Rng()
 	res := hx.NewResult("C14", "sequential histories of 5..35 create/update/delete/generic events over all 18 handled kinds (pooled names incl. the two watched ConfigMaps and the publish service, or unique names per event) with swaps interleaved, random controller configuration (gateway API versions, EndpointSlice API, ConfigMap names), fired through the real watchers; non-trivial = at least two non-empty batches; distinct by canonical text of the history")
-	cw := hx.NewCaseWriter(o, res, "From HI Require Import Corr.Corr_C14.", "wcase", 120)
+	cw := hx.NewCaseWriter(o, res, "From HI Require Import Corr.Corr_C14.", "ccase14", 120)
 
 	var inputs []input
+	var leginputs []legInput
+	replayConcurrent := false
 	if o.Replay != "" {
-		var in input
-		hx.ReadReplay(o.Replay, &in)
-		inputs = append(inputs, in)
+		var probe struct {
+			Legacy     bool `json:"legacy"`
+			Concurrent bool `json:"concurrent"`
+		}
+		hx.ReadReplay(o.Replay, &probe)
+		if probe.Concurrent {
+			replayConcurrent = true // concurrent streams are not step-by-step replayable: run them again
+		} else if probe.Legacy {
+			var in legInput
+			hx.ReadReplay(o.Replay, &in)
+			leginputs = append(leginputs, in)
+		} else {
+			var in input
+			hx.ReadReplay(o.Replay, &in)
+			inputs = append(inputs, in)
+		}
 	} else {
+		leginputs = append(leginputs, legCorpus()...)
+		nl := o.Count(350, 3000)
+		if o.Search {
+			nl = o.Count(8000, 40000)
+		}
+		if o.N > 0 {
+			nl = o.N / 3
+		}
+		for i := 0; i < nl; i++ {
+			leginputs = append(leginputs, genLegacy(rng, i%3 == 0))
+		}
 		inputs = append(inputs, corpus()...)
-		n := o.Count(1500, 6000)
+		n := o.Count(1000, 6000)
 		if o.Search {
 			n = o.Count(20000, 100000)
 		}
@@ -1102,9 +1131,50 @@ func main() {
 			cw.Add(func(id int) string { return coqCase(id, in, obs, final) }, in)
 		}
 	}
+	// the legacy controller's event path
+	for _, in := range leginputs {
+		obs, final, mutated, notifs, wantNotifs := legRun(in)
+		var batches []*legBatch
+		stepBatch := map[int]int{}
+		nonEmpty := 0
+		for i, s := range in.Steps {
+			if s.Op == "swap" {
+				batches = append(batches, obs[i].Batch)
+				if len(obs[i].Batch.Objects) > 0 {
+					nonEmpty++
+				}
+			} else {
+				stepBatch[i] = len(batches)
+				res.Count("legacy notify kind=" + s.Kind)
+			}
+		}
+		res.Seen(legJSON(in), nonEmpty >= 2)
+		res.Count("legacy history")
+		if o.Replay != "" || (len(res.Samples) < 5 && nonEmpty >= 2 && len(in.Steps) < 12) {
+			res.Sample(5, map[string]interface{}{"legacy_input": in, "observed": obs})
+		}
+		res.OracleChecks++
+		if k, what := legOracle(in, batches, stepBatch); k != "" {
+			res.Count("oracle_fail_legacy_" + k)
+			res.Fail(hx.Failure{Key: "C14/legacy/" + k, What: what, Input: in, Observed: obs})
+		} else if k, what := legOracle(in, final, stepBatch); k != "" {
+			res.Count("oracle_fail_legacy_late_" + k)
+			res.Fail(hx.Failure{Key: "C14/legacy/" + k, What: "batches read again at the end of the history: " + what, Input: in, Observed: final})
+		}
+		if mutated != "" {
+			res.Fail(hx.Failure{Key: "C14/legacy/batch-mutated-after-delivery", What: mutated, Input: in, Observed: map[string]interface{}{"at_delivery": obs, "read_again_at_the_end": final}})
+		}
+		if notifs != wantNotifs {
+			res.Fail(hx.Failure{Key: "C14/legacy/notification", What: fmt.Sprintf("%d reconciliations were asked for, %d events arrived while nothing was pending", notifs, wantNotifs), Input: in})
+		}
+		if !o.Search {
+			in, obs, final, notifs := in, obs, final, notifs
+			cw.Add(func(id int) string { return coqLegCase(id, in, obs, final, notifs) }, in)
+		}
+	}
 	cw.Flush()
 
-	if o.Replay == "" {
+	if o.Replay == "" || replayConcurrent {
 		// concurrent deliveries and swaps: partition property on real interleavings
 		rounds, per := 3, 1500
 		if o.Thorough() {
@@ -1123,6 +1193,18 @@ func main() {
 			}
 		}
 		res.Extra["concurrent_runs"] = crs
+		// the same for the legacy path: Notify from 8 goroutines, SwapChangedObjects from one
+		var lcrs []legConcResult
+		for r := 0; r < rounds; r++ {
+			lr := legConcurrent(o.Seed+int64(r), 8, per)
+			lcrs = append(lcrs, lr)
+			res.OracleChecks++
+			if lr.Failure != "" {
+				res.Fail(hx.Failure{Key: "C14/legacy/concurrent-partition", What: fmt.Sprintf("%s (%d of %d events in no batch, %d in several, %d swaps)", lr.Failure, lr.Lost, lr.Events, lr.Dup, lr.Swaps),
+					Input: map[string]interface{}{"concurrent": true, "legacy": true, "seed": o.Seed + int64(r), "workers": 8, "per_worker": per}})
+			}
+		}
+		res.Extra["legacy_concurrent_runs"] = lcrs
 		if o.Thorough() {
 			rr := raceRun(o)
 			res.Extra["race_detector_run"] = rr
